@@ -76,6 +76,7 @@ inductive Presel
   | displace (r : Nat) (l : Int)
   | delete (r : Nat) (l : Int)
   | add (r : Nat)
+  | addTwice (r : Nat)      -- `to_add_atoms` = a species of another size than the template (two copies of it)
 
 def preselOf (s : String) : Option (List Presel) :=
   if s = "-" then some [] else
@@ -84,6 +85,7 @@ def preselOf (s : String) : Option (List Presel) :=
     | [r, "D", l] => do pure (.displace (← r.toNat?) (← l.toInt?))
     | [r, "X", l] => do pure (.delete (← r.toNat?) (← l.toInt?))
     | [r, "A"] => do pure (.add (← r.toNat?))
+    | [r, "B"] => do pure (.addTwice (← r.toNat?))
     | _ => none
 
 structure TrialIn where
@@ -132,6 +134,7 @@ def applyPresel (s : State) : List Presel → State
   | .displace r l :: ps => applyPresel (s.setObj r { s.obj r with toDisplace := some l }) ps
   | .delete r l :: ps => applyPresel (s.setObj r { s.obj r with toDelete := some l }) ps
   | .add r :: ps => applyPresel (s.setObj r { s.obj r with toAdd := some s.ctx.template }) ps
+  | .addTwice r :: ps => applyPresel (s.setObj r { s.obj r with toAdd := some (s.ctx.template ++ s.ctx.template) }) ps
 
 /-- decode the user's edit of a `!run` event -/
 def runEdit (inp : Inputs) : List V3 × Option V3 :=
